@@ -232,6 +232,9 @@ def r01_3(ctx):
         dom = [(bb, t) for bb, t in all_calls if ser_body.edge_dominates(0, idx, tgt[idx], bb)]
         sers = [(bb, t) for bb, t in dom if (fn_of(t) or {}).get("trait") in ("serde::Serializer", "serde::Serialize", "serde::ser::SerializeMap", "serde::ser::SerializeSeq")]
         names = [fn_of(t)["name"] for _, t in sers]
+        if role not in ("Seq", "String", "Bytes", "Map"):
+            # (a scalar arm may go through serde's impl for the primitive: `().serialize(s)` is `s.serialize_unit()`)
+            names = [common.ser_method_name(fn_of(t)) for _, t in sers]
         if role in ("Seq", "String", "Bytes"):
             ok = names == ["serialize"]
             if ok:
